@@ -21,3 +21,8 @@ def main(tier, seed):
     return analysis_check("C11", tier, seed, items=items, want=["central", "cumulant"], builders=[C.b_source, C.b_stats],
                           N=5 if quick else 8, timeout=90 if quick else 200,
                           assumptions=["orders k <= 4; Gram-Charlier / Cornish-Fisher expansions are not covered by this check yet"])
+
+
+def replay(path):
+    from ..driver import replay_analysis
+    return replay_analysis("C11", path, want=["central", "cumulant"], builders=[C.b_source, C.b_stats], N=5)
